@@ -48,6 +48,8 @@ class C20(Prop):
         "PrefVerif.C20.kt_symm",
         "PrefVerif.C20.kt_triangle",
         "PrefVerif.C20.kt_eq_zero_iff",
+        "PrefVerif.C20.ktNorm_correct",
+        "PrefVerif.C20.ktNorm_errors",
         "PrefVerif.C20.sertel_eq_zero_iff",
         "PrefVerif.C20.sertel_symm",
         "PrefVerif.C20.sertel_le_one",
@@ -177,13 +179,8 @@ class C20(Prop):
         """impl vs model and vs spec for one ordered pair"""
         same = mod["same"]
         # normalised Kendall-tau (outside the statement of C20: a difference is a model/code disagreement)
-        m = len(a)
-        if len(a) != len(b) or mod["kt"] is None:
-            expn = ("exc", "ValueError")
-        elif m < 2:
-            expn = ("exc", "ZeroDivisionError")
-        else:
-            expn = ("ok", mod["kt"] / (m * (m - 1) // 2))
+        mk = mod["ktn"]
+        expn = ("exc", mk) if isinstance(mk, str) else ("ok", mk[0] / mk[1])
         if impl.get("ktn", expn) != expn:
             out.append(Problem("disagreement", case, f"kt({tag}, normalise=True): implementation {impl['ktn']}, "
                                f"model {expn}", "ktn/value"))
